@@ -42,7 +42,13 @@ class Spec:
 
 
 def handshake_bytes(spec):
-    return b"RFB 003.008\n" + bytes([1, 1]) + struct.pack("!I", 0) + server_init(spec.size[0], spec.size[1], spec.pf, b"desk")
+    ver = getattr(spec, "version", (3, 8))
+    init = server_init(spec.size[0], spec.size[1], spec.pf, b"desk")
+    if ver == (3, 3):
+        return b"RFB 003.003\n" + struct.pack("!I", 1) + init
+    if ver == (3, 7):
+        return b"RFB 003.007\n" + bytes([1, 1]) + init
+    return b"RFB %03d.%03d\n" % ver + bytes([1, 1]) + struct.pack("!I", 0) + init
 
 
 def run_impl(spec):
@@ -203,6 +209,7 @@ def until_close_app(tokens):
 def build_session(r, kinds=None, ncmd=None, want_match=None):
     size = (r.choice([8, 16, 24]), r.choice([8, 12]))
     spec = Spec([], delay=r.choice(DELAYS), warp=r.choice(WARPS), incremental=(r.random() < .45), nocursor=(r.random() < .4), size=size)
+    spec.version = r.choice([(3, 8), (3, 8), (3, 8), (3, 3), (3, 7), (3, 889)])
     sess = Session(spec.pf)
     # expected images: some equal to a future screen, some different
     target_px = [rand_rgb(r) for _ in range(size[0] * size[1])]
@@ -280,11 +287,13 @@ def drive(r, spec, respond="random", faults=None, max_steps=80):
                     # a framebuffer update with a good rectangle and one whose encoding the client does not know, in one
                     # chunk (either order): the client aborts; nothing after the abort may count as progress of the script
                     good = enc_raw(r, spec.pf, 0, 0, min(4, spec.size[0]), min(3, spec.size[1]))
-                    bad = struct.pack("!HHHHi", 0, 0, 2, 2, r.choice([99, 7, -300, 0x7FFFFFFF])) + bytes(r.choice([0, 16, 40]))
+                    bw, bh = r.choice([(2, 2), (2, 2), (0, 0), (3, 0), (0, 3)])      # an empty rectangle in an unknown encoding is still unknown
+                    bad = struct.pack("!HHHHi", 0, 0, bw, bh, r.choice([99, 7, 6, 50, -300, 0x7FFFFFFF])) + bytes(r.choice([0, 16, 40]))
                     body = (good.header() + good.body + bad) if r.random() < .5 else (bad + good.header() + good.body)
                     data = struct.pack("!BxH", 0, 2) + body
                     spec.events.append(("recv", data))
                     note("recv", v.feed(data))
+                    res["aborted_on_unknown_encoding"] = bool(v.proto.transport.closed)
                     if v.proto.transport.closed:
                         spec.events.append(("lose", True))
                         note("lose-clean", v.lose(True))
@@ -349,6 +358,10 @@ def drive(r, spec, respond="random", faults=None, max_steps=80):
                     # an update that carries nothing but a cursor shape (with --nocursor the shape is not drawn, but the
                     # update is an update like any other: it completes, and whoever waits is told)
                     rects = [enc_cursor(r, spec.pf, r.randrange(3), r.randrange(3), r.choice([1, 4, 9]), r.choice([1, 3]))]
+                    msg = spec.sess.update(rects)
+                elif r.random() < .06:
+                    # an update whose rectangles are all empty (0x0, Wx0, 0xH raw): legal, and a completed update like any other
+                    rects = [enc_raw(r, spec.pf, r.randrange(3), r.randrange(3), *r.choice([(0, 0), (3, 0), (0, 2)])) for _ in range(r.randint(1, 2))]
                     msg = spec.sess.update(rects)
                 elif r.random() < .1:
                     # pixel data followed by the QEMU extended-key pseudo-rectangle (the server's acknowledgement): an update like
